@@ -2,7 +2,7 @@
 VERIF_SEED) plus a seeded random part, strata in round-robin."""
 from harness import common, cvengine as cv
 
-STRATA = ['small', 'small', 'as', 'as_nested', 'fusion', 'fusion_var', 'circ', 'circ_var', 'multi', 'small']
+STRATA = ['small', 'small', 'as', 'as_nested', 'fusion', 'fusion_var', 'circ', 'circ_var', 'multi', 'small', 'sec', 'sec']
 
 
 def specs(prop, seed, n_fixed, n_random, extra=None):
